@@ -1152,8 +1152,12 @@ def check_world(jinja2, res, tag, world, flavours, stats, replies_by_mode):
                         f"{flavour}: real output {got[1]!r} differs from the transcription {impl[1]!r} but equals the "
                         f"documented behaviour", dict(case, layer="L-e2e"), no_input=True)
         else:
+            extra = ""
+            if with_exports and got[:2] == spec[:2]:
+                extra = (f"; the module's public attributes are {got[2]!r}, documented {spec[2]!r} "
+                         "(exactly the public top-level macros and assignments)")
             res.violate(key_for(tag, world, flavour),
-                        f"{flavour}: real {got[:2]!r}, transcription {impl[:2]!r}, documented {spec[:2]!r}", case)
+                        f"{flavour}: real {got[:2]!r}, transcription {impl[:2]!r}, documented {spec[:2]!r}" + extra, case)
 
 
 def run(ctx, res):
